@@ -179,10 +179,14 @@ def fixed_streams():
         [U1("u1", 1, **kw), U2("u2", 2, **kw), U1("u3", 3, **kw), U2("u4", 4, **kw)],
         [U2("u1", 1, **kw), U1("u2", 2, **kw)],
     ]
+    # member types whose FIELD names are what a grouped record calls its own attributes
+    Nm = RecordDescriptor("member/named", [("string", "name"), ("varint", "records")])
+    Nd = RecordDescriptor("member/other", [("string", "descriptors"), ("string", "flat_fields")])
     return extra + [
         [A("one", 1, **kw), A2(2, **kw), A("three", 3, **kw), A2(4, **kw), A3("five", 5, "m", **kw), A("six", 6, **kw)],
         [A2(1, **kw), A("two", 2, **kw), A2(3, **kw), Z(**kw), A3("x", 4, "y", **kw), A3("x", 5, "z", **kw)],
         [X("1", "2", **kw), Xc("3", **kw), X("4", "5", **kw), Xc("6", **kw)],
+        [GroupedRecord("grp/attrs", [Nm("the member's own name", 7, **kw), Nd("d", "f", **kw)]), Nm("plain", 8, **kw), GroupedRecord("grp/attrs2", [Nd("d2", "f2", **kw), Nm("second member's name", 9, **kw)])],
     ]
 
 
@@ -252,7 +256,8 @@ def fixed_streams_intent():
     g1, g2 = ["fs/entry", "hit/meta"], ["fs/ntfs/entry", "hit/meta"]
     u1, u2 = ["browser/chrome_history"], ["browser_chrome/history"]
     a, x, z = ["s/a"], ["t/x"], ["s/z"]
-    return [[g1, g2, g1, g2], [g2, ["fs/entry"], g1], [u1, u2, u1, u2], [u2, u1], [a, a, a, a, a, a], [a, a, a, z, a, a], [x, x, x, x]]
+    return [[g1, g2, g1, g2], [g2, ["fs/entry"], g1], [u1, u2, u1, u2], [u2, u1], [a, a, a, a, a, a], [a, a, a, z, a, a], [x, x, x, x],
+            [["member/named", "member/other"], ["member/named"], ["member/other", "member/named"]]]
 
 
 def names_of(rec):
